@@ -228,3 +228,140 @@ Proof.
   assert (E : acc_S00 segs - sum_model_sq q H segs = sum_sq q H segs) by (unfold ofR in Esq; congruence).
   pose proof (sum_sq_nonneg q H segs). pose proof (sum_model_sq_nonneg q H segs). lra.
 Qed.
+
+(* ---- optimality: a solution of the normal equations minimises the residual; consequences ---- *)
+Definition Qform (q : nat) (A B : nat -> C) (T : nat -> nat -> C) : C :=
+  csumf (fun i => csumf (fun j => cmul (cmul (cconj (A j)) (B i)) (T j i)) q) q.
+Lemma Qform_add_both q H D T :
+  Qform q (fun i => cadd (H i) (D i)) (fun i => cadd (H i) (D i)) T
+  = cadd (cadd (Qform q H H T) (Qform q H D T)) (cadd (Qform q D H T) (Qform q D D T)).
+Proof.
+  unfold Qform, csumf. set (l := seq 0 q). rewrite <- !csum_add. apply csum_ext. intros i _.
+  rewrite <- !csum_add. apply csum_ext. intros j _. cring.
+Qed.
+Lemma resid_expr_shift q H D S00 S T :
+  (forall i j, T j i = cconj (T i j)) ->
+  (forall i, (i < q)%nat -> csumf (fun j => cmul (T i j) (H j)) q = S i) ->
+  resid_expr q (fun i => cadd (H i) (D i)) S00 S T = cadd (resid_expr q H S00 S T) (Qform q D D T).
+Proof.
+  intros Hherm Hsol. unfold resid_expr. fold (Qform q (fun i => cadd (H i) (D i)) (fun i => cadd (H i) (D i)) T). fold (Qform q H H T).
+  rewrite Qform_add_both.
+  assert (EDH : Qform q D H T = csumf (fun j => cmul (cconj (D j)) (S j)) q).
+  { unfold Qform, csumf. rewrite csum_swap. apply csum_ext. intros j Hj. apply in_seq in Hj.
+    rewrite <- (Hsol j) by lia. unfold csumf. rewrite <- csum_mul_l. apply csum_ext. intros i _. cring. }
+  assert (EHD : Qform q H D T = csumf (fun i => cmul (D i) (cconj (S i))) q).
+  { unfold Qform, csumf. apply csum_ext. intros i Hi. apply in_seq in Hi.
+    rewrite <- (Hsol i) by lia. unfold csumf. rewrite <- csum_conj, <- csum_mul_l. apply csum_ext. intros j _.
+    rewrite (Hherm i j). cring. }
+  assert (E1 : csumf (fun i => cmul (cadd (H i) (D i)) (cconj (S i))) q
+             = cadd (csumf (fun i => cmul (H i) (cconj (S i))) q) (csumf (fun i => cmul (D i) (cconj (S i))) q)).
+  { unfold csumf. rewrite <- csum_add. apply csum_ext. intros i _. cring. }
+  assert (E2 : csumf (fun i => cmul (cconj (cadd (H i) (D i))) (S i)) q
+             = cadd (csumf (fun i => cmul (cconj (H i)) (S i)) q) (csumf (fun i => cmul (cconj (D i)) (S i)) q)).
+  { unfold csumf. rewrite <- csum_add. apply csum_ext. intros i _. cring. }
+  rewrite E1, E2, EDH, EHD. cring.
+Qed.
+Lemma acc_T_hermitian segs i j : acc_T segs j i = cconj (acc_T segs i j).
+Proof. induction segs as [|[X Y] r IH]; [cbn [acc_T]; cring|]. cbn [acc_T]. rewrite IH. cring. Qed.
+
+Definition csubf (A B : nat -> C) : nat -> C := fun i => csub (A i) (B i).
+Theorem solution_minimises_residual q Hs H segs :
+  (forall i, (i < q)%nat -> csumf (fun j => cmul (acc_T segs i j) (Hs j)) q = acc_S segs i) ->
+  sum_sq q H segs = sum_sq q Hs segs + sum_model_sq q (csubf H Hs) segs.
+Proof.
+  intros Hsol.
+  pose proof (resid_expr_shift q Hs (csubf H Hs) (acc_S00 segs) (acc_S segs) (acc_T segs) (acc_T_hermitian segs) Hsol) as E.
+  unfold Qform in E. rewrite Sum3_is_model_power in E. rewrite (resid_accumulated_is_sum_of_squares q Hs segs) in E.
+  assert (EH : resid_expr q (fun i => cadd (Hs i) (csubf H Hs i)) (acc_S00 segs) (acc_S segs) (acc_T segs)
+             = resid_expr q H (acc_S00 segs) (acc_S segs) (acc_T segs)).
+  { unfold resid_expr, csumf. set (l := seq 0 q).
+    rewrite (csum_ext (fun i => cmul (cadd (Hs i) (csubf H Hs i)) (cconj (acc_S segs i))) (fun i => cmul (H i) (cconj (acc_S segs i))) l)
+      by (intros i _; unfold csubf; cring).
+    rewrite (csum_ext (fun i => cmul (cconj (cadd (Hs i) (csubf H Hs i))) (acc_S segs i)) (fun i => cmul (cconj (H i)) (acc_S segs i)) l)
+      by (intros i _; unfold csubf; cring).
+    rewrite (csum_ext (fun i => csum (map (fun j => cmul (cmul (cconj (cadd (Hs j) (csubf H Hs j))) (cadd (Hs i) (csubf H Hs i))) (acc_T segs j i)) l))
+                      (fun i => csum (map (fun j => cmul (cmul (cconj (H j)) (H i)) (acc_T segs j i)) l)) l)
+      by (intros i _; apply csum_ext; intros j _; unfold csubf; cring).
+    reflexivity. }
+  rewrite EH, (resid_accumulated_is_sum_of_squares q H segs) in E. unfold ofR, cadd in E. cbn [fst snd] in E. congruence.
+Qed.
+Corollary solution_is_optimal q Hs H segs :
+  (forall i, (i < q)%nat -> csumf (fun j => cmul (acc_T segs i j) (Hs j)) q = acc_S segs i) ->
+  sum_sq q Hs segs <= sum_sq q H segs.
+Proof. intros Hsol. rewrite (solution_minimises_residual q Hs H segs Hsol). pose proof (sum_model_sq_nonneg q (csubf H Hs) segs). lra. Qed.
+(* any two solutions (analytic or numeric solver, pinv or solve, singular systems included) give the same residual *)
+Corollary residual_same_for_all_solutions q H1 H2 segs :
+  (forall i, (i < q)%nat -> csumf (fun j => cmul (acc_T segs i j) (H1 j)) q = acc_S segs i) ->
+  (forall i, (i < q)%nat -> csumf (fun j => cmul (acc_T segs i j) (H2 j)) q = acc_S segs i) ->
+  resid_expr q H1 (acc_S00 segs) (acc_S segs) (acc_T segs) = resid_expr q H2 (acc_S00 segs) (acc_S segs) (acc_T segs).
+Proof.
+  intros S1 S2. rewrite !resid_accumulated_is_sum_of_squares. f_equal.
+  pose proof (solution_is_optimal q H1 H2 segs S1). pose proof (solution_is_optimal q H2 H1 segs S2). lra.
+Qed.
+
+(* ---- invertible re-mixing of the inputs leaves the optimal residual unchanged ---- *)
+Definition remix (M : nat -> nat -> C) (q : nat) (X : nat -> C) : nat -> C := fun i => csumf (fun m => cmul (M i m) (X m)) q.
+Definition remix_segs (M : nat -> nat -> C) (q : nat) (segs : list ((nat -> C) * C)) : list ((nat -> C) * C) :=
+  map (fun s => (remix M q (fst s), snd s)) segs.
+Definition pullback (M : nat -> nat -> C) (q : nat) (H : nat -> C) : nat -> C := fun m => csumf (fun i => cmul (cconj (M i m)) (H i)) q.
+
+Lemma model_out_remix M q H X : model_out q H (remix M q X) = model_out q (pullback M q H) X.
+Proof.
+  unfold model_out, remix, pullback, csumf. set (l := seq 0 q).
+  transitivity (csum (map (fun i => csum (map (fun m => cmul (cmul (cconj (H i)) (M i m)) (X m)) l)) l)).
+  - apply csum_ext. intros i _. rewrite <- csum_mul_l. apply csum_ext. intros m _. cring.
+  - rewrite csum_swap. apply csum_ext. intros m _. rewrite <- csum_conj, <- csum_mul_r. apply csum_ext. intros i _. cring.
+Qed.
+Lemma sum_sq_remix M q H segs : sum_sq q H (remix_segs M q segs) = sum_sq q (pullback M q H) segs.
+Proof.
+  induction segs as [|[X Y] r IH]; [reflexivity|]. cbn [remix_segs map sum_sq fst snd]. fold (remix_segs M q r).
+  rewrite IH, model_out_remix. reflexivity.
+Qed.
+Lemma model_out_ext q H X X' : (forall i, (i < q)%nat -> X i = X' i) -> model_out q H X = model_out q H X'.
+Proof. intros E. unfold model_out, csumf. apply csum_ext. intros i Hi. apply in_seq in Hi. rewrite E by lia. reflexivity. Qed.
+Lemma csum_delta (X : nat -> C) (i : nat) (l : list nat) : NoDup l -> In i l ->
+  csum (map (fun m => cmul (if Nat.eqb i m then ofR 1 else czero) (X m)) l) = X i.
+Proof.
+  induction l as [|m l IH]; intros Hl Hin; [destruct Hin|]. inversion Hl as [|? ? Hnotin Hl']; subst. cbn [map]. rewrite csum_cons.
+  destruct (Nat.eqb_spec i m) as [->|Hne].
+  - assert (Z : csum (map (fun m0 => cmul (if Nat.eqb m m0 then ofR 1 else czero) (X m0)) l) = czero).
+    { clear IH Hl Hin Hl'. induction l as [|k l IH]; [reflexivity|]. cbn [map]. rewrite csum_cons.
+      destruct (Nat.eqb_spec m k) as [->|]; [exfalso; apply Hnotin; left; reflexivity|].
+      rewrite IH by (intros Hk; apply Hnotin; right; exact Hk). cring. }
+    rewrite Z. cring.
+  - destruct Hin as [->|Hin]; [congruence|]. rewrite IH by assumption. cring.
+Qed.
+Lemma remix_inverse M N q X i : (i < q)%nat ->
+  (forall a b, (a < q)%nat -> (b < q)%nat -> csumf (fun j => cmul (N a j) (M j b)) q = if Nat.eqb a b then ofR 1 else czero) ->
+  remix N q (remix M q X) i = X i.
+Proof.
+  intros Hi Hinv. unfold remix, csumf. set (l := seq 0 q).
+  transitivity (csum (map (fun j => csum (map (fun m => cmul (cmul (N i j) (M j m)) (X m)) l)) l)).
+  - apply csum_ext. intros j _. rewrite <- csum_mul_l. apply csum_ext. intros m _. cring.
+  - rewrite csum_swap. rewrite <- (csum_delta X i l) by (try apply seq_NoDup; apply in_seq; lia).
+    apply csum_ext. intros m Hm. apply in_seq in Hm. rewrite <- (Hinv i m) by lia. unfold csumf. fold l.
+    rewrite <- csum_mul_r. reflexivity.
+Qed.
+Lemma sum_sq_ext q H segs segs' :
+  Forall2 (fun s s' => snd s = snd s' /\ forall i, (i < q)%nat -> fst s i = fst s' i) segs segs' -> sum_sq q H segs = sum_sq q H segs'.
+Proof.
+  induction 1 as [|[X Y] [X' Y'] r r' [EY EX] _ IH]; [reflexivity|]. cbn [sum_sq fst snd] in *. subst Y'.
+  rewrite IH, (model_out_ext q H X X' EX). reflexivity.
+Qed.
+
+Theorem remix_invariant q M N Hs Hs' segs :
+  (forall a b, (a < q)%nat -> (b < q)%nat -> csumf (fun j => cmul (N a j) (M j b)) q = if Nat.eqb a b then ofR 1 else czero) ->
+  (forall i, (i < q)%nat -> csumf (fun j => cmul (acc_T segs i j) (Hs j)) q = acc_S segs i) ->
+  (forall i, (i < q)%nat -> csumf (fun j => cmul (acc_T (remix_segs M q segs) i j) (Hs' j)) q = acc_S (remix_segs M q segs) i) ->
+  resid_expr q Hs' (acc_S00 (remix_segs M q segs)) (acc_S (remix_segs M q segs)) (acc_T (remix_segs M q segs))
+  = resid_expr q Hs (acc_S00 segs) (acc_S segs) (acc_T segs).
+Proof.
+  intros Hinv Hsol Hsol'. rewrite !resid_accumulated_is_sum_of_squares. f_equal. apply Rle_antisym.
+  - (* the re-mixed optimum is at least as good as the original optimum pulled through N *)
+    pose proof (solution_is_optimal q Hs' (pullback N q Hs) (remix_segs M q segs) Hsol') as Hle.
+    rewrite <- sum_sq_remix in Hle.
+    rewrite (sum_sq_ext q Hs (remix_segs N q (remix_segs M q segs)) segs) in Hle; [exact Hle|].
+    clear Hsol Hsol' Hle. induction segs as [|[X Y] r IH]; [constructor|]. cbn [remix_segs map fst snd]. constructor; [|exact IH].
+    cbn [fst snd]. split; [reflexivity|]. intros i Hi. apply remix_inverse; assumption.
+  - pose proof (solution_is_optimal q Hs (pullback M q Hs') segs Hsol) as Hle. rewrite <- sum_sq_remix in Hle. exact Hle.
+Qed.
